@@ -152,7 +152,7 @@ class Contract:
     def __init__(self, file, qual, *, params=None, result=None, requires=None, ensures=None,
                  raises=None, raises_iff=True, may_raise=(), modifies=None, exc_safe=False,
                  inline=False, loops=None, props=(), ghost=None, self_cls=None, trusted=False,
-                 note="", dispatch=None, spec_defs=None):
+                 note="", dispatch=None, spec_defs=None, lemmas=None):
         self.file, self.qual = file, qual
         self.params = params or {}
         self.result = result
@@ -170,6 +170,7 @@ class Contract:
         self.note = note
         self.dispatch = dispatch
         self.spec_defs = spec_defs or (lambda c: [])
+        self.lemmas = lemmas or (lambda c: [])   # [(lemma name, instance clause)] assumed when verifying the body
 
     @property
     def key(self):
@@ -207,3 +208,12 @@ class Ctx:
         if name in a:
             return a[name]
         raise AttributeError(name)
+
+
+LEMMAS = {}   # name -> (build, text)
+
+
+def lemma(name, build, text):
+    """build() -> (hyps: [(name, clause)], concl: Q, skolem_facts(*skolems) -> [z3])
+    The lemma is proved for fresh generic symbols; users assume `And(hyps) => concl` instances."""
+    LEMMAS[name] = (build, text)
